@@ -474,7 +474,8 @@ impl StateMachine {
             // reaction prescribed by the replica specification (with the documented refinement: the leader's new-view for the current view is processed)
             r.is_ok() ==> old(self).nv_accept(&signed_message)
                 && final(self).view_number.0 == (if signed_message.msg.justification.spec_view().number.0 > old(self).view_number.0
-                        { signed_message.msg.justification.spec_view().number.0 } else { old(self).view_number.0 }),
+                        { signed_message.msg.justification.spec_view().number.0 } else { old(self).view_number.0 })
+                && final(self).justification_recorded(signed_message.msg.justification),
             old(self).nv_accept(&signed_message) ==> r.is_ok() || r matches Err(NewViewError::Internal(_)),
             // a rejected message changes nothing and emits nothing
             (r.is_err() && !(r matches Err(NewViewError::Internal(_)))) ==> final(self).snapshot() == old(self).snapshot() && final(self).verif_sent == old(self).verif_sent,
@@ -517,6 +518,13 @@ impl StateMachine {
         &&& sig_ok(m.msg, m.key, m.sig)
         &&& m.msg.justification.valid(self.g(), self.config.epoch, &self.config.validators)
     }
+    // the certificates carried by a processed justification are reflected in the replica's high certificates
+    pub open spec fn justification_recorded(&self, j: ProposalJustification) -> bool {
+        &&& j matches ProposalJustification::Commit(qc) ==> self.commit_view() >= qc.message.view.number.0
+        &&& j matches ProposalJustification::Timeout(qc) ==> self.timeout_view() >= qc.view.number.0
+                && (forall|k: int| 0 <= k < qc.map.entries().len() && (#[trigger] qc.map.entries()[k]).0.high_qc.is_some()
+                        ==> self.commit_view() >= qc.map.entries()[k].0.high_qc.unwrap().message.view.number.0)
+    }
     // the vote a correct replica casts for an accepted proposal
     pub open spec fn vote_for(&self, m: &Signed<LeaderProposal>, vote: ReplicaCommit) -> bool {
         exists|r: (BlockNumber, Option<PayloadHash>)| #[trigger] is_implied(m.msg.justification, &self.config.validators, self.config.first_block, r)
@@ -555,7 +563,9 @@ impl StateMachine {
                 && final(self).high_vote.is_some() && old(self).vote_for(&signed_message, final(self).high_vote.unwrap())
                 // exactly one commit vote leaves the node, it IS the recorded high vote, and the state recording it is already durable
                 && final(self).verif_sent@ == old(self).verif_sent@.push(ConsensusMsg::V2(ChonkyMsg::ReplicaCommit(final(self).high_vote.unwrap())))
-                && final(self).verif_persisted@ == final(self).snapshot(),
+                && final(self).verif_persisted@ == final(self).snapshot()
+                // the certificate justifying the proposal is processed (C05: the state after the handler is the spec's)
+                && final(self).justification_recorded(signed_message.msg.justification),
             // a rejected proposal changes nothing of the voting state and emits nothing
             (r.is_err() && !(r matches Err(ProposalError::Internal(_)))) ==> final(self).snapshot() == old(self).snapshot() && final(self).verif_sent == old(self).verif_sent,
             // an internal error may leave a partially updated state behind, but never an un-persisted message
@@ -617,6 +627,97 @@ pub axiom fn built_add(q0: CommitQC, q1: CommitQC, vec: Seq<ValidatorInfo>, i: i
 pub broadcast axiom fn built_verifies(q: CommitQC, vec: Seq<ValidatorInfo>)
     requires #[trigger] built(q, vec), q.signers.0@.len() == vec.len(),
     ensures agg_ok(q.signature, sel_pairs(q.message, q.signers.0@, vec, vec.len() as int));
+impl TimeoutQcsCache {
+    pub uninterp spec fn view(&self) -> Map<ViewNumber, TimeoutQC>;     // view -> partially collected timeout certificate
+    #[verifier::external_body]
+    pub fn retain_views_in(&mut self, a: &ActiveViews)
+        ensures forall|k: ViewNumber| #[trigger] final(self)@.contains_key(k) <==> old(self)@.contains_key(k) && a@.contains(k),
+                forall|k: ViewNumber| final(self)@.contains_key(k) ==> #[trigger] final(self)@[k] == old(self)@[k],
+    { unimplemented!() }
+    // BTreeMap::remove (A1)
+    #[verifier::external_body]
+    pub fn remove(&mut self, k: &ViewNumber) -> (r: Option<TimeoutQC>)
+        ensures r == (if old(self)@.contains_key(*k) { Some(old(self)@[*k]) } else { None }), final(self)@ == old(self)@.remove(*k),
+    { unimplemented!() }
+}
+// cache.entry(view).or_insert_with(F)  ->  &mut TimeoutQC
+#[verifier::external_body]
+pub fn tmpl_tqc_entry<'a, F: FnOnce() -> TimeoutQC>(c: &'a mut TimeoutQcsCache, v: ViewNumber, f: F) -> (e: &'a mut TimeoutQC)
+    requires !old(c)@.contains_key(v) ==> f.requires(()),
+    ensures old(c)@.contains_key(v) ==> *e == old(c)@[v],
+            !old(c)@.contains_key(v) ==> f.ensures((), *e),
+            final(c)@ == old(c)@.insert(v, *final(e)),
+{ unimplemented!() }
+// A3, timeout certificates: the aggregate is built by adding individually valid signatures, each over the signer's own vote
+pub uninterp spec fn tbuilt(q: TimeoutQC, vec: Seq<ValidatorInfo>) -> bool;
+pub broadcast axiom fn tbuilt_new(q: TimeoutQC, vec: Seq<ValidatorInfo>)
+    requires q.signature == agg_empty(), q.map.entries().len() == 0,
+    ensures #[trigger] tbuilt(q, vec);
+pub axiom fn tbuilt_add(q0: TimeoutQC, q1: TimeoutQC, vec: Seq<ValidatorInfo>, i: int, m: ReplicaTimeout, sig: Signature, had: bool, p: int)
+    requires tbuilt(q0, vec), 0 <= i < vec.len(),
+             forall|j: int| 0 <= j < q0.map.entries().len() ==> !(#[trigger] q0.map.entries()[j]).1.0@[i],
+             tqc_added(q0.map.entries(), q1.map.entries(), m, i, vec.len() as int, had, p),
+             q1.signature == agg_add(q0.signature, sig), sig_ok(m, vec[i].key, sig),
+    ensures tbuilt(q1, vec);
+pub broadcast axiom fn tbuilt_verifies(q: TimeoutQC, vec: Seq<ValidatorInfo>)
+    requires #[trigger] tbuilt(q, vec), en_lens(q.map.entries(), vec.len() as int),
+    ensures agg_ok(q.signature, all_pairs(q.map.entries(), vec, q.map.entries().len() as int));
+impl TimeoutQC {
+    // everything validity asks for except the quorum: what add() maintains vote by vote
+    pub open spec fn pre_valid(&self, g: GenesisHash, e: EpochNumber, s: &Schedule) -> bool {
+        &&& self.view.ok(g, e)
+        &&& forall|j: int| 0 <= j < self.map.entries().len() ==> self.entry_ok(j, g, e, s)
+        &&& self.disjoint(self.map.entries().len() as int)
+        &&& tbuilt(*self, s.vec@)
+    }
+}
+// TimeoutQC::add keeps the certificate pre-valid (consequence of its contract, proved in unit qc)
+pub proof fn lemma_tqc_add_pre_valid(q0: TimeoutQC, q1: TimeoutQC, m: ReplicaTimeout, i: int, had: bool, p: int, g: GenesisHash, e: EpochNumber, s: &Schedule)
+    requires
+        q0.view.ok(g, e), forall|j: int| 0 <= j < q0.map.entries().len() ==> q0.entry_ok(j, g, e, s),
+        q0.disjoint(q0.map.entries().len() as int),
+        0 <= i < s.vec@.len(),
+        forall|j: int| 0 <= j < q0.map.entries().len() ==> !(#[trigger] q0.map.entries()[j]).1.0@[i],
+        tqc_added(q0.map.entries(), q1.map.entries(), m, i, s.vec@.len() as int, had, p),
+        m.view == q0.view, m.valid(g, e, s), q1.view == q0.view,
+    ensures
+        forall|j: int| 0 <= j < q1.map.entries().len() ==> q1.entry_ok(j, g, e, s),
+        q1.disjoint(q1.map.entries().len() as int),
+{
+    let o = q0.map.entries();
+    let n = q1.map.entries();
+    if had {
+        assert forall|j: int| 0 <= j < n.len() implies q1.entry_ok(j, g, e, s) by {
+            assert(q0.entry_ok(j, g, e, s));
+            if j != p { assert(n[j] == o[j]); }
+            else { assert(n[p].1.0@[i]); }
+        }
+        assert forall|j1: int, j2: int, b: int| 0 <= j1 < j2 < n.len() && 0 <= b < n[j1].1.0@.len() && 0 <= b < n[j2].1.0@.len()
+            implies !(#[trigger] n[j1].1.0@[b] && #[trigger] n[j2].1.0@[b]) by {
+            assert(q0.entry_ok(j1, g, e, s) && q0.entry_ok(j2, g, e, s));
+            if j1 != p { assert(n[j1] == o[j1]); }
+            if j2 != p { assert(n[j2] == o[j2]); }
+            assert(!(o[j1].1.0@[b] && o[j2].1.0@[b]));
+            assert(!o[j1].1.0@[i] && !o[j2].1.0@[i]);
+        }
+    } else {
+        assert forall|j: int| 0 <= j < n.len() implies q1.entry_ok(j, g, e, s) by {
+            if j < p { assert(n[j] == o[j]); assert(q0.entry_ok(j, g, e, s)); }
+            else if j > p { assert(n[j] == o[j - 1]); assert(q0.entry_ok(j - 1, g, e, s)); }
+            else { assert(n[p].1.0@[i] == (i == i)); }
+        }
+        assert forall|j1: int, j2: int, b: int| 0 <= j1 < j2 < n.len() && 0 <= b < n[j1].1.0@.len() && 0 <= b < n[j2].1.0@.len()
+            implies !(#[trigger] n[j1].1.0@[b] && #[trigger] n[j2].1.0@[b]) by {
+            let k1 = if j1 < p { j1 } else { j1 - 1 };
+            let k2 = if j2 < p { j2 } else { j2 - 1 };
+            if j1 != p { assert(n[j1] == o[k1]); assert(q0.entry_ok(k1, g, e, s)); assert(!o[k1].1.0@[i]); }
+            if j2 != p { assert(n[j2] == o[k2]); assert(q0.entry_ok(k2, g, e, s)); assert(!o[k2].1.0@[i]); }
+            if j1 != p && j2 != p { assert(!(o[k1].1.0@[b] && o[k2].1.0@[b])); }
+            if j1 == p { assert(n[p].1.0@[b] == (b == i)); }
+            if j2 == p { assert(n[p].1.0@[b] == (b == i)); }
+        }
+    }
+}
 impl StateMachine {
     // invariant of the commit-vote bookkeeping, per cached certificate
     pub open spec fn commit_entry_ok(&self, k: (ViewNumber, ReplicaCommit)) -> bool {
@@ -634,6 +735,18 @@ impl StateMachine {
     pub open spec fn commit_inv(&self) -> bool {
         forall|k: (ViewNumber, ReplicaCommit)| #[trigger] self.commit_qcs_cache@.contains_key(k) ==> self.commit_entry_ok(k)
     }
+    // invariant of the timeout-vote bookkeeping, per cached certificate
+    pub open spec fn timeout_entry_ok(&self, v: ViewNumber) -> bool {
+        let s = &self.config.validators;
+        let q = self.timeout_qcs_cache@[v];
+        &&& q.view.number == v && q.pre_valid(self.g(), self.config.epoch, s)
+        &&& forall|j: int, i: int| 0 <= j < q.map.entries().len() && 0 <= i < s.vec@.len() && (#[trigger] q.map.entries()[j]).1.0@[i] ==>
+                self.timeout_views_cache@.contains_key(#[trigger] s.vec@[i].key) && self.timeout_views_cache@[s.vec@[i].key].0 >= v.0
+        &&& exists|key: PublicKey| self.timeout_views_cache@.contains_key(key) && #[trigger] self.timeout_views_cache@[key] == v
+    }
+    pub open spec fn timeout_inv(&self) -> bool {
+        forall|v: ViewNumber| #[trigger] self.timeout_qcs_cache@.contains_key(v) ==> self.timeout_entry_ok(v)
+    }
     pub open spec fn votes(&self) -> (CommitQcsCache, ViewsCache, TimeoutQcsCache, ViewsCache) {
         (self.commit_qcs_cache, self.commit_views_cache, self.timeout_qcs_cache, self.timeout_views_cache)
     }
@@ -641,55 +754,19 @@ impl StateMachine {
 """
 
 VOTES_PRELUDE = r"""
-// ---------------- vote collection (on_commit / on_timeout): the cache bookkeeping is ABSTRACTED (R-stub, unverified statements) ----------------
+// ---------------- constructors / lookups of the vote caches (A1) ----------------
 impl ViewsCache {
     #[verifier::external_body] pub fn new() -> (r: Self) ensures r@ == Map::<PublicKey, ViewNumber>::empty() { unimplemented!() }
     #[verifier::external_body] pub fn get(&self, k: &PublicKey) -> (r: Option<&ViewNumber>)
         ensures r.is_some() == self@.contains_key(*k), r.is_some() ==> *r.unwrap() == self@[*k] { unimplemented!() }
 }
 impl CommitQcsCache { #[verifier::external_body] pub fn new() -> (r: Self) ensures r@ == Map::<(ViewNumber, ReplicaCommit), CommitQC>::empty() { unimplemented!() } }
-impl TimeoutQcsCache { #[verifier::external_body] pub fn new() -> Self { unimplemented!() } }
-impl StateMachine {
-    // R-stub A: `let commit_qc = self.commit_qcs_cache.entry(..).or_default().entry(..).or_insert_with(..); commit_qc.add(..).expect(..);
-    //            let weight = commit_qc.signers.weight(..); self.commit_views_cache.insert(..); let active_views ..; self.commit_qcs_cache.retain(..);`
-    // frame: only the four vote caches change; yields the weight collected so far for this vote
-    #[verifier::external_body]
-    pub fn stub_collect_commit(&mut self, signed_message: &Signed<ReplicaCommit>) -> (weight: u64)
-        requires sig_ok(signed_message.msg, signed_message.key, signed_message.sig), signed_message.msg.view.ok(old(self).g(), old(self).config.epoch)
-        ensures final(self).snapshot() == old(self).snapshot(), final(self).config == old(self).config,
-                final(self).verif_persisted == old(self).verif_persisted, final(self).verif_sent == old(self).verif_sent,
-    { unimplemented!() }
-    // R-stub B: `self.commit_qcs_cache.remove(&view).unwrap().remove(message).unwrap()` -- ASSUMED: the certificate assembled from
-    // individually verified votes (CommitQC::add, proved in unit qc) whose weight was just compared with the quorum is valid
-    #[verifier::external_body]
-    pub fn stub_consume_commit(&mut self, message: &ReplicaCommit, Ghost(weight): Ghost<u64>) -> (qc: CommitQC)
-        requires weight as int >= spec_quorum(old(self).config.validators.total_weight as nat)     // commit only on a quorum
-        ensures qc.message == *message, qc.valid(old(self).g(), old(self).config.epoch, &old(self).config.validators),
-                final(self).snapshot() == old(self).snapshot(), final(self).config == old(self).config,
-                final(self).verif_persisted == old(self).verif_persisted, final(self).verif_sent == old(self).verif_sent,
-    { unimplemented!() }
-    #[verifier::external_body]
-    pub fn stub_collect_timeout(&mut self, signed_message: &Signed<ReplicaTimeout>) -> (weight: u64)
-        requires sig_ok(signed_message.msg, signed_message.key, signed_message.sig),
-                 signed_message.msg.valid(old(self).g(), old(self).config.epoch, &old(self).config.validators)
-        ensures final(self).snapshot() == old(self).snapshot(), final(self).config == old(self).config,
-                final(self).commit_qcs_cache == old(self).commit_qcs_cache, final(self).commit_views_cache == old(self).commit_views_cache,
-                final(self).verif_persisted == old(self).verif_persisted, final(self).verif_sent == old(self).verif_sent,
-    { unimplemented!() }
-    #[verifier::external_body]
-    pub fn stub_consume_timeout(&mut self, view: ViewNumber, Ghost(weight): Ghost<u64>) -> (qc: TimeoutQC)
-        requires weight as int >= spec_quorum(old(self).config.validators.total_weight as nat)
-        ensures qc.view.number == view, qc.valid(old(self).g(), old(self).config.epoch, &old(self).config.validators),
-                final(self).snapshot() == old(self).snapshot(), final(self).config == old(self).config,
-                final(self).commit_qcs_cache == old(self).commit_qcs_cache, final(self).commit_views_cache == old(self).commit_views_cache,
-                final(self).verif_persisted == old(self).verif_persisted, final(self).verif_sent == old(self).verif_sent,
-    { unimplemented!() }
-}
+impl TimeoutQcsCache { #[verifier::external_body] pub fn new() -> (r: Self) ensures r@ == Map::<ViewNumber, TimeoutQC>::empty() { unimplemented!() } }
 """
 
 
 def add_votes(U):
-    U.raw(CACHE_PRELUDE, label="prelude caches")
+    U.raw(CACHE_PRELUDE, label="prelude caches", canary=True)
     U.raw(VOTES_PRELUDE, label="prelude votes")
     err_enum(U, F_COMMIT, "CommitError", None)
     err_enum(U, F_TIMEOUT, "TimeoutError", None)
@@ -762,15 +839,75 @@ def add_votes(U):
                 "            final(self).commit_inv(),\n"
                 "            final(self).timeout_qcs_cache == old(self).timeout_qcs_cache, final(self).timeout_views_cache == old(self).timeout_views_cache,\n")
     U.fn(F_TIMEOUT, SM + " :: fn on_timeout", wrap=SM, ret="r", header_subs=HDR + [("Result<(), Error>", "Result<(), TimeoutError>")], rules_=RULES,
-         regions=[("let timeout_qc = self\n            .timeout_qcs_cache\n            .entry", ".retain(|view_number, _| active_views.contains(view_number))",
-                   "let weight = self.stub_collect_timeout(&signed_message);"),
-                  ("let timeout_qc = self.timeout_qcs_cache.remove", "self.timeout_qcs_cache.remove(&message.view.number)",
-                   "let timeout_qc = self.stub_consume_timeout(message.view.number, Ghost(weight));")],
+         proof_at_start="broadcast use tbuilt_new, tbuilt_verifies;",
          subs=PATHS + [("Error::", "TimeoutError::", None), ("author.clone().into()", "Box::new(author.clone())   /* R-std */", None),
-                        ("if let Some(&view) = $E {", "if let Some(verif_view_ref) = $E { let view = *verif_view_ref;   /* R-refpat */")]
+                        ("if let Some(&view) = $E {", "if let Some(verif_view_ref) = $E { let view = *verif_view_ref;   /* R-refpat */"),
+                        ("let active_views: HashSet<_> =", "let active_views: ActiveViews ="),
+                        ("self.timeout_qcs_cache\n            .retain(|view_number, _| active_views.contains(view_number));",
+                         "self.timeout_qcs_cache.retain_views_in(&active_views);   /* R-chain (anchor-exact closure) */")]
               + r_try("TimeoutError", [(".wrap(())", 1), ("self.start_new_view(ctx, $V).await", 1)]),
-         post_subs=[("self.process_timeout_qc(ctx, &timeout_qc)", "proof { a7_timeout_qc_bounded(timeout_qc, self.g(), self.config.epoch, &self.config.validators); } self.process_timeout_qc(ctx, &timeout_qc)")],
-         spec=common_post % dict(E="TimeoutError"))
+         chains=[dict(recv="self\n            .timeout_qcs_cache", methods=["entry", "or_insert_with"],
+                      closures={1: dict(ty=[], ret="q: TimeoutQC",
+                                        spec="ensures q.view == message.view, q.map.entries().len() == 0, q.signature == agg_empty()")},
+                      template="tmpl_tqc_entry(&mut self.timeout_qcs_cache, {a0}, {a1})", count=1),
+                 dict(recv="self.timeout_views_cache", methods=["values", "collect"], template="tmpl_views_values_collect(&self.timeout_views_cache)")],
+         post_subs=[("let timeout_qc = tmpl_tqc_entry(", "let ghost verif_g = self.g(); let timeout_qc = tmpl_tqc_entry("),
+                    ("timeout_qc\n            .add(", """let ghost verif_q0 = *timeout_qc;   /* W-ghost */
+        proof {
+            let v0 = message.view.number;
+            if old(self).timeout_qcs_cache@.contains_key(v0) { assert(old(self).timeout_entry_ok(v0)); assert(verif_q0 == old(self).timeout_qcs_cache@[v0]); }
+            assert(verif_q0.view == message.view);
+            assert forall|j: int| 0 <= j < verif_q0.map.entries().len() implies verif_q0.entry_ok(j, verif_g, self.config.epoch, &self.config.validators) by {}
+            assert forall|j: int| 0 <= j < verif_q0.map.entries().len() implies (#[trigger] verif_q0.map.entries()[j]).1.0@.len() == self.config.validators.vec@.len() by {
+                assert(verif_q0.entry_ok(j, verif_g, self.config.epoch, &self.config.validators)); }
+        }
+        timeout_qc
+            .add("""),
+                    (".expect(\"could not add message to TimeoutQC\");", """.expect("could not add message to TimeoutQC");
+        proof {   // the certificate stays pre-valid: entries valid and disjoint (lemma), aggregate of individually valid signatures (A3 axiom)
+            let s = &self.config.validators;
+            let had = verif_q0.map.has(*message);
+            let p = if had { verif_q0.map.find(*message) } else { tqc_ins_pos(verif_q0.map, *message) };
+            let i = choose|i: int| 0 <= i < s.vec@.len() && #[trigger] s.vec@[i].key == signed_message.key
+                && (forall|j: int| 0 <= j < verif_q0.map.entries().len() ==> !(#[trigger] verif_q0.map.entries()[j]).1.0@[i])
+                && tqc_added(verif_q0.map.entries(), timeout_qc.map.entries(), *message, i, s.vec@.len() as int, had, p);
+            lemma_tqc_add_pre_valid(verif_q0, *timeout_qc, *message, i, had, p, verif_g, self.config.epoch, s);
+            tbuilt_add(verif_q0, *timeout_qc, s.vec@, i, *message, signed_message.sig, had, p);
+            assert forall|j: int| 0 <= j < timeout_qc.map.entries().len() implies (#[trigger] timeout_qc.map.entries()[j]).1.0@.len() == s.vec@.len() by {
+                assert(timeout_qc.entry_ok(j, verif_g, self.config.epoch, s)); }
+        }"""),
+                    ("let weight = timeout_qc.weight(&self.config.validators);", "let ghost verif_q1 = *timeout_qc; let weight = timeout_qc.weight(&self.config.validators);"),
+                    ("self.timeout_qcs_cache.retain_views_in(&active_views);", """self.timeout_qcs_cache.retain_views_in(&active_views);
+        proof {
+            let v0 = message.view.number;
+            assert(self.timeout_views_cache@[*author] == v0);
+            assert(active_views@.contains(v0));
+            assert(self.timeout_qcs_cache@.contains_key(v0) && self.timeout_qcs_cache@[v0] == verif_q1);
+            assert forall|v: ViewNumber| #[trigger] self.timeout_qcs_cache@.contains_key(v) implies self.timeout_entry_ok(v) by {
+                if v == v0 { assert(self.timeout_entry_ok(v0)); } else {
+                    assert(old(self).timeout_qcs_cache@.contains_key(v));
+                    assert(old(self).timeout_entry_ok(v));
+                    assert(self.timeout_qcs_cache@[v] == old(self).timeout_qcs_cache@[v]);
+                    assert(active_views@.contains(v));
+                }
+            }
+        }"""),
+                    ("let timeout_qc = self.timeout_qcs_cache.remove(", "let ghost verif_s2 = *self; proof { assert(verif_s2.timeout_inv()); } let timeout_qc = self.timeout_qcs_cache.remove("),
+                    ("self.process_timeout_qc(ctx, &timeout_qc)", """proof {
+            assert(timeout_qc == verif_q1);
+            // a new view is entered only on a quorum: the consumed certificate is valid
+            assert(timeout_qc.valid(self.g(), self.config.epoch, &self.config.validators));
+            assert forall|v: ViewNumber| #[trigger] self.timeout_qcs_cache@.contains_key(v) implies self.timeout_entry_ok(v) by {
+                assert(v != message.view.number);
+                assert(verif_s2.timeout_qcs_cache@.contains_key(v)); assert(verif_s2.timeout_entry_ok(v));
+                assert(self.timeout_qcs_cache@[v] == verif_s2.timeout_qcs_cache@[v]);
+                assert(self.timeout_views_cache == verif_s2.timeout_views_cache && self.config == verif_s2.config); }
+            a7_timeout_qc_bounded(timeout_qc, self.g(), self.config.epoch, &self.config.validators);
+        }
+        self.process_timeout_qc(ctx, &timeout_qc)""")],
+         spec=(common_post % dict(E="TimeoutError")).replace("    requires old(self).wf(),", "    requires old(self).wf(), old(self).timeout_inv(),")
+              + "            final(self).timeout_inv(),\n"
+                "            final(self).commit_qcs_cache == old(self).commit_qcs_cache, final(self).commit_views_cache == old(self).commit_views_cache,\n")
 
 
 def add_start(U):
@@ -807,7 +944,8 @@ pub open spec fn snap_default() -> Snap {
             ReplicaState::V2(b) => sm.snapshot() == (if b.epoch == config.epoch { snap_of(b) } else { snap_default() })
         }) && sm.verif_persisted@ == sm.snapshot() && sm.verif_sent@.len() == 0
             // the vote bookkeeping starts empty (its invariant holds trivially)
-            && sm.commit_qcs_cache@ == Map::<(ViewNumber, ReplicaCommit), CommitQC>::empty() && sm.commit_inv(),
+            && sm.commit_qcs_cache@ == Map::<(ViewNumber, ReplicaCommit), CommitQC>::empty() && sm.commit_inv()
+            && sm.timeout_qcs_cache@ == Map::<ViewNumber, TimeoutQC>::empty() && sm.timeout_inv(),
 """)
     U.fn(F_PROPOSER, "fn create_proposal", ret="r", rules_=RULES,
          header_subs=[("ctx::Ctx", "Ctx"), ("ctx::Result<validator::v2::LeaderProposal>", "Result<LeaderProposal, CtxError>"), ("validator::v2::", "", None)],
